@@ -12,6 +12,7 @@ CONSTANTS FieldKinds <- K_none
           Ascending = TRUE
           MsgIds <- M_one
           Sels <- Sel_all
+          StreamPieces <- P_attr
           MaxGlobal = 2
           MaxScopes = 2
           MaxMsgAttrs = 2
